@@ -77,6 +77,109 @@ class OpaqueSound(Harness):
                    q.size[0] == W, q.size[1] == H)
 
 
+class Composition(Harness):
+    """the full composition loop of LayerMerger.merge (no shortcut): two layers over the background, per pixel the result is
+    the "over" composition bottom-to-top with each layer's opacity as its weight, and the merged image is cacheable only if
+    every layer is.  PIL (C code) is replaced by its per-pixel arithmetic on one representative pixel: blend, alpha_composite,
+    paste (with/without mask), convert, split/putalpha, ImageChops.multiply/constant.  The opacity is a solver variable."""
+    modules = ['mapproxy.image.merge']
+    functions = ['LayerMerger.merge']
+    BG, COLORS, ALPHA = 0.125, (0.375, 0.875), 0.5
+
+    @classmethod
+    def build(cls, L, cfg):
+        return dict(m=L.mods['mapproxy.image.merge'])
+
+    @classmethod
+    def inputs(cls, ctx, cfg):
+        op = real_var('opacity')
+        assume(AND(op > 0, op < 1))
+        return dict(opacity=op, cacheable=[bool_var('layer%d_cacheable' % i) for i in range(2)])
+
+    @classmethod
+    def native_inputs(cls, cex):
+        from engine.e1 import to_native
+        return dict(opacity=to_native(cex['opacity']), cacheable=[bool(x) for x in cex['cacheable']])
+
+    @classmethod
+    def prop(cls, ctx, cfg, opacity, cacheable):
+        import types
+        m = ctx['m']
+        out_transparent = cfg['out'] == 'RGBA'
+
+        class Px(object):
+            """one pixel: premultiplied colour pc and alpha a (a == 1 for RGB); layers also keep their straight colour c"""
+            def __init__(self, mode, pc, a, c=None):
+                self.mode, self.pc, self.a, self.c, self.info = mode, pc, a, c, {}
+
+            def convert(self, mode):
+                if mode == self.mode:
+                    return Px(mode, self.pc, self.a, self.c)
+                if mode == 'RGBA':
+                    return Px('RGBA', self.pc, self.a, self.c)
+                if mode == 'RGB':
+                    return Px('RGB', self.c, 1, self.c)          # alpha channel dropped
+                raise symex.Unsupported('convert to %s' % mode)
+
+            def split(self):
+                return [None, None, None, Band(self.a)]
+
+            def putalpha(self, band):
+                self.a = band.v
+                self.pc = self.c * band.v
+
+            def paste(self, img, pos, mask=None):
+                if mask is None:
+                    self.pc, self.a = img.pc, (img.a if self.mode == 'RGBA' else 1)
+                    return
+                if self.mode != 'RGB' or mask is not img:
+                    raise symex.Unsupported('masked paste on %s' % self.mode)
+                self.pc = img.pc + self.pc * (1 - img.a)
+
+        class Band(object):
+            def __init__(self, v):
+                self.v = v
+
+        class ImageStub(object):
+            @staticmethod
+            def blend(im1, im2, alpha):
+                return Px(im1.mode, im1.pc * (1 - alpha) + im2.pc * alpha, im1.a * (1 - alpha) + im2.a * alpha)
+
+            @staticmethod
+            def alpha_composite(dst, src):
+                return Px('RGBA', src.pc + dst.pc * (1 - src.a), src.a + dst.a * (1 - src.a))
+
+        class ChopsStub(object):
+            multiply = staticmethod(lambda a, b: Band(a.v * b.v))
+            constant = staticmethod(lambda band, value: Band(value / 255))
+        m.__dict__['Image'] = ImageStub
+        m.__dict__['ImageChops'] = ChopsStub
+        m.__dict__['has_alpha_composite_support'] = lambda: True
+        m.__dict__['create_image'] = lambda size, opts: Px('RGBA', 0, 0) if opts.transparent else Px('RGB', cls.BG, 1)
+        m.__dict__['ImageSource'] = lambda img, size=None, image_opts=None, cacheable=True: types.SimpleNamespace(img=img, cacheable=cacheable)
+        out_opts = types.SimpleNamespace(transparent=out_transparent, bgcolor=None, mode=None, opacity=None)
+        merger = m.LayerMerger()
+        layers = []
+        for i, mode in enumerate(cfg['modes']):
+            a = cls.ALPHA if mode == 'RGBA' else 1
+            has_op = cfg['opacity_on'] == i
+            lopts = types.SimpleNamespace(transparent=(mode == 'RGBA'), opacity=opacity if has_op else None)
+            px = Px(mode, cls.COLORS[i] * a, a, cls.COLORS[i])
+            layers.append((cls.COLORS[i], a, opacity if has_op else 1))
+            merger.add(types.SimpleNamespace(image_opts=lopts, size=(256, 256), cacheable=B(cacheable[i]), as_image=lambda px=px: px))
+        out = merger.merge(out_opts, size=None, bbox=(0, 0, 1, 1), bbox_srs=None, coverage=None)
+        if cfg.get('check') == 'cacheable':
+            return B(out.cacheable) == (B(cacheable[0]) and B(cacheable[1]))
+        # reference: "over", bottom to top
+        pc, a = (0, 0) if out_transparent else (cls.BG, 1)
+        for c, al, op in layers:
+            ea = al * op
+            pc, a = c * ea + pc * (1 - ea), ea + a * (1 - ea)
+        tol = 2.0 / 255                      # the composite path quantises the opacity to 8 bit
+        got = out.img
+        return AND(got.pc >= pc - tol, got.pc <= pc + tol, got.a >= a - tol, got.a <= a + tol)
+
+
 class _SlowPath(Exception):
     pass
 
@@ -421,6 +524,8 @@ CANARIES = [
         "    def is_opaque(self, query):\n        \"\"\"\n        Returns true if we are sure that the image is not transparent.\n        \"\"\"\n        if self.res_range and not self.res_range.contains(query.bbox, query.size,\n                                                          query.srs):\n            return False\n",
         "    def is_opaque(self, query):\n")]},
      dict(size=(256, 256), res=10.0, coverage=False, with_opacity=False, max_res=20.0)),
+    ('opacity not applied on the alpha-composite path', 'Composition', {'mapproxy.image.merge': [(
+        "ImageChops.constant(alpha, int(255 * opacity))", "ImageChops.constant(alpha, 255)")]}, dict(out='RGBA', modes=['RGB', 'RGBA'], opacity_on=1)),
     ('single-layer shortcut ignores opacity', 'FastPath', {'mapproxy.image.merge': [(
         "                and (not layer_opts or layer_opts.opacity is None or layer_opts.opacity >= 1.0)\n", "")]}, {}),
     ('single-layer shortcut ignores the global clip coverage', 'FastPath', {'mapproxy.image.merge': [(
@@ -441,6 +546,14 @@ CANARIES = [
 ]
 
 
+COMPOSITIONS = [
+    dict(out='RGB', modes=['RGB', 'RGB'], opacity_on=1), dict(out='RGB', modes=['RGB', 'RGB'], opacity_on=0),
+    dict(out='RGB', modes=['RGB', 'RGBA'], opacity_on=-1), dict(out='RGB', modes=['RGBA', 'RGB'], opacity_on=1),
+    dict(out='RGBA', modes=['RGB', 'RGBA'], opacity_on=1), dict(out='RGBA', modes=['RGBA', 'RGBA'], opacity_on=0),
+    dict(out='RGBA', modes=['RGBA', 'RGB'], opacity_on=-1), dict(out='RGBA', modes=['RGBA', 'RGB'], opacity_on=1),
+]
+
+
 def obligations(tier, seed):
     specs = []
     ocfgs = [dict(size=[256, 256], res=10.0, coverage=True, with_opacity=False), dict(size=[256, 256], res=10.0, coverage=True, with_opacity=True),
@@ -456,7 +569,9 @@ def obligations(tier, seed):
     for d in ('none', 'shared', 'srs', 'formats', 'coverage', 'opacity', 'opacity-a', 'opacity-b', 'opacity-both', 'transparent_color', 'fwd', 'res_range'):
         specs.append(spec(MOD, 'Compatible', 'combine-compatible/%s' % d, cfg=dict(differs=d)))
     specs.append(spec(MOD, 'OpaquePruning', 'opaque-pruning-loop-of-the-wms-service', cfg={}, cost=5))
-    twins = dict(OpaqueSound=ocfgs[0], FastPath={}, Combine=dict(n=3), Compatible=dict(differs='coverage'), SubImageLabel={}, OpaquePruning={})
+    for c in COMPOSITIONS:
+        specs.append(spec(MOD, 'Composition', 'composition/%s-out/%s-over-%s/opacity-%s' % (c['out'], c['modes'][1], c['modes'][0], ('none', 'bottom', 'top')[c['opacity_on'] + 1]), cfg=c, cost=3))
+    twins = dict(OpaqueSound=ocfgs[0], FastPath={}, Composition=COMPOSITIONS[0], Combine=dict(n=3), Compatible=dict(differs='coverage'), SubImageLabel={}, OpaquePruning={})
     for h, c in twins.items():
         specs.append(spec(MOD, h, 'twin/' + h, kind='witness', cfg=c))
     for label, h, patches, c in (CANARIES if tier == 'thorough' else CANARIES[:1] + CANARIES[2:7]):
